@@ -42,6 +42,8 @@ func init() {
 			{ID: "C18.R19", Floor: 1, Run: exclusiveFromInclude, Text: "Exclusive excludes the complement of what is included: in Compile the mask that is complemented is the mask stored as the filter's inclusion (after optional components were removed)"},
 			{ID: "C18.R20", Floor: 20, Run: mapListsComplete, Text: "component lists of MapN are complete: every list of components or ids a MapN method builds in place and hands to the core has exactly N elements"},
 			{ID: "C18.R21", Floor: 4, Run: noTargetNoRelationFlag, Text: "without a target no relation is claimed (= C05.R17)"},
+			{ID: "C18.R22", Floor: 10, Run: freshRelationFilterPerCall, Text: "generic FilterN.Filter hands out a relation filter of its own for a per-call target: the target given to a call is never written into a struct owned by the generic filter and handed out by every call"},
+			{ID: "C18.R23", Floor: 1, Run: compileKeyedByWorld, Text: "the compilation is keyed by world: the early return of Compile is taken only where the world argument equals the world recorded at the last compilation (or the filter is registered)"},
 		},
 	})
 }
